@@ -476,7 +476,8 @@ func ksGenerate(s *simrt.Sim, nconn int, flashValid string) []*ksReq {
 				}
 			case 3:
 				r.kind = "show-forged-flash"
-				cookie = "fiber_flash=" + simrt.PickS(s, "AAAA", "\x95\xa1a", "zzz", "\x93")
+				// junk, over-announced arrays, and well-formed arrays of maps with missing fields
+				cookie = "fiber_flash=" + simrt.PickS(s, "AAAA", "\x95\xa1a", "zzz", "\x93", "\x92\x80\x80", "\x91\x81\xa3key\xa2zz", "\x93\x80\x81\xa5value\xa1v\x80")
 			}
 		case 9:
 			r.kind = simrt.PickS(s, "fail", "err", "panic")
